@@ -20,7 +20,31 @@ func (r *recorder) scanTrace() {
 	text := sp.RenderDoc(v)
 	if r.rnd.Intn(2) == 0 && len(text) > 0 {
 		i := r.rnd.Intn(len(text))
-		switch r.rnd.Intn(6) {
+		switch r.rnd.Intn(8) {
+		case 6, 7:
+			// structural near-misses: a comma before a closing bracket, a doubled comma, a colon for a comma, a dropped colon
+			var cands []int
+			for k, c := range text {
+				if c == '}' || c == ']' || c == ',' || c == ':' {
+					cands = append(cands, k)
+				}
+			}
+			if len(cands) > 0 {
+				k := cands[r.rnd.Intn(len(cands))]
+				switch text[k] {
+				case '}', ']':
+					text = append(append(append([]byte{}, text[:k]...), ','), text[k:]...)
+				case ',':
+					if r.rnd.Intn(2) == 0 {
+						text = append(append(append([]byte{}, text[:k]...), ','), text[k:]...)
+					} else {
+						text = append([]byte{}, text...)
+						text[k] = ':'
+					}
+				case ':':
+					text = append(append([]byte{}, text[:k]...), text[k+1:]...)
+				}
+			}
 		case 0:
 			text = text[:i]
 		case 1:
